@@ -252,7 +252,7 @@ def run_check(prop_id: str, tier: str, seed: int, jobs: Optional[int] = None) ->
     scratch = tempfile.mkdtemp(prefix=f"verif-{prop_id}-")
     env = dict(os.environ)
     env.setdefault("PYTHONHASHSEED", "0")
-    env["PYTHONPATH"] = f"/repo:{HERE}"
+    env["PYTHONPATH"] = f"{os.environ.get('VERIF_REPO', '/repo')}:{HERE}"
     env["PYANALYZE_VERIF"] = "1"
     env["PYTHONDONTWRITEBYTECODE"] = "1"
     env["VERIF_SCRATCH"] = scratch
